@@ -108,6 +108,14 @@ CHECKS.update({
              'random and all short operation sequences on the real classes against the model inside coqc; an admissible-answer oracle (any arg-max accepted) checks the real classes directly.',
         design='5 C19', note=TB + 'depq.DEPQ (third party) modelled as a stable descending list with drop-last bounding; links are list order in the model and checked on the real objects by the oracle.',
         technique='Rocq proof by induction over operation sequences + operation-sequence correspondence'),
+    'C01': dict(
+        text='Theorems over the reals for N = 1 (AGP/Optimality.v, on the same generic model of the method as C02, instantiated with R): for ANY L-Lipschitz objective phi on the unit segment, '
+             'any r > 1 and eps, if the run driven by phi stops by accuracy and r*M >= 2L for the estimate M in force when the last interval was selected, then best - min phi < (r*M/2)*eps; '
+             'corollary for flat objectives (2L <= r) without any condition; per-interval lower bound from the characteristic. The literal reading with the FINAL M is refuted by a kernel-evaluated '
+             'witness over Q (AGP/Refuted.v) which the check replays on the real implementation (known finding F6). Tie as C02 (generated formulas, skeletons, lock-step replay); search: cone objectives '
+             'with known minimum and Lipschitz constant, N = 1..3, flat and steep, bound evaluated with M at selection time.',
+        design='5 C01', note=SOLVER_NOTE + ' N >= 2 (composition with the evolvent Hoelder bound and the grid term) is not formalised: partial; the oracle covers N = 2, 3.',
+        technique='Rocq proof over R of the 1-D certificate (covering argument on the model shared with C02) + refutation witness by vm_compute + lock-step correspondence + search with known-minimum objectives'),
     'C02': dict(
         text='Theorem (Coq, generic numeric type): in every state reachable from the initial one by any number of iterations under ANY stream of objective values, '
              'the subdivided interval has maximal stored characteristic among all intervals of the partition, the stored characteristics are the characteristics under '
